@@ -3,7 +3,8 @@
 set -e
 cd "$(dirname "$0")"
 export CARGO_NET_OFFLINE=true
-(cd lean && lake build)
+# model library, executable model, and every property module of the quick tier (C07Big is thorough-only)
+(cd lean && lake build LdpcV vmodel $(ls LdpcV/Props/*.lean | grep -v C07Big | sed 's#/#.#g; s#\.lean$##'))
 (cd harness && cargo build --offline)
 mkdir -p work evidence replays
 echo "setup done"
